@@ -5,6 +5,9 @@ import storelib
 CFGS = {
     "quick": [("c14-a", dict(BadMode='"type-size"', MaxStmts=3, MaxRows=3, MaxFlush=0, Tables='{"t1", "t2"}', Vals="{1}"), None),
               ("c14-b", dict(BadMode='"count-range"', MaxStmts=3, MaxRows=2, MaxFlush=1, Tables='{"t1"}', Vals="{1, 2}"), None),
+              # statements on three-level trees and on rows at the 400-byte limit: they succeed in the specification
+              ("c14-x", dict(MaxStmts=5, MaxRows=3, MaxFlush=0, Tables='{"t1"}', Vals="{1}", Wheres="{0, 1}", Ops='{"create", "insert", "update", "delete"}'), 8000),
+              ("c14-y-x", dict(MaxStmts=4, MaxRows=2, MaxFlush=0, Tables='{"t1"}', Vals="{1, 8}", Wheres="{0, 8}", Ops='{"create", "insert", "update", "delete"}'), 8000),
               # rows with a NULL INT column and WHERE clauses that fail on them (`a >= k`): the statement must fail before touching any row
               ("c14-n", dict(BadMode='"type-size"', MaxStmts=5, MaxRows=1, MaxFlush=0, Tables='{"t1"}', Vals="{1, 9}", Wheres="{0, 1, 101}", Ops='{"create", "insert", "update", "delete"}'), None)],
     "thorough": [("c14-a", dict(BadMode='"type-size"', MaxStmts=4, MaxRows=3, MaxFlush=1, Tables='{"t1", "t2"}', Vals="{1}"), 80000),
@@ -23,10 +26,14 @@ def run(ctx):
     kinds = {}
     try:
         for name, over, sample in CFGS[ctx.tier]:
-            def sel(sc):
-                # paths whose last statement is the failing one (its effect is what this property is about)
+            def sel(sc, name=name):
+                # paths whose last statement is the failing one (its effect is what this property is about); in the
+                # "-x" configurations every path ending in a statement: a statement the specification lets succeed may
+                # fail in the code (a fault deep in a tree, at the size limit), and then it must have changed nothing
+                if name.endswith("-x"):
+                    return sc["steps"][-1]["a"] in ("insert", "update", "delete")
                 return sc["out"] == "error"
-            st = storelib.StoreRun(ctx, name, dict(over, EmitSel='"error"'),  sample=sample, select=sel).run(pool, storelib.default_violation(ctx), cov)
+            st = storelib.StoreRun(ctx, name, dict(over, EmitSel=('"all"' if name.endswith("-x") else '"error"')),  sample=sample, select=sel).run(pool, storelib.default_violation(ctx), cov)
             kinds[name] = st["replayed"]
         if not ctx.quick():
             storelib.design_only(ctx, "big", dict(BadMode='"all"', MaxStmts=5, MaxRows=3, MaxFlush=1, Tables='{"t1"}', Vals="{1, 9}", Wheres="{0, 1, 101}"), cov, timeout=600)
